@@ -149,7 +149,7 @@ impl Prop for C06 {
         "C06"
     }
     fn rule(&self) -> String {
-        "relational: same input (soup / structured documents with foreign islands / dense mis-nested documents) and schedule under handler set H (selector-scoped observers, sometimes plus document handlers) and under H ∪ O (O = document text/comments/doctype, '*', sparse selectors, everything), O registered before or after H; non-trivial when the two runs differ in the number of scanner<->lexer switches (hook events) and H logged at least one event; distinct = hash(input, schedule, H, O)".into()
+        "relational: same input (soup / structured documents with foreign islands / dense mis-nested documents) and schedule under handler set H (selector-scoped observers, sometimes plus document handlers; on a third of the structured documents H also rewrites: content removal, insertions, renaming) and under H ∪ O (O = document text/comments/doctype, '*', sparse selectors, everything), O registered before or after H; non-trivial when the two runs differ in the number of scanner<->lexer switches (hook events) and H logged at least one event; distinct = hash(input, schedule, H, O)".into()
     }
     fn run_shard(&self, ctx: &mut Ctx<'_>) {
         let n = ctx.budget(600_000, 36_000_000);
@@ -204,6 +204,24 @@ impl Prop for C06 {
                     cfg.el.push(e);
                 }
             }
+            let mut mutating_h = false;
+            if mode >= 2 && ctx.rng.chance(1, 3) {
+                mutating_h = true;
+                // H itself may rewrite (the statement only requires the OTHER handlers to be non-mutating): content removal,
+                // renaming and insertions by H must come out the same whether the rest of the document is scanned or lexed
+                ctx.count("cases_with_mutating_H");
+                for e in cfg.el.iter_mut() {
+                    if e.element && ctx.rng.chance(2, 3) {
+                        for _ in 0..ctx.rng.range(1, 2) {
+                            e.always_el.push(match ctx.rng.below(4) {
+                                0 => crate::engine::Op::SetInner(crate::mutgen::content(&mut ctx.rng)),
+                                1 => crate::engine::Op::Remove,
+                                _ => crate::mutgen::el_op(&mut ctx.rng),
+                            });
+                        }
+                    }
+                }
+            }
             let cuts = gen::random_cuts(&mut ctx.rng, input.len());
             let (mut extra_el, extra_doc) = gen_extra(&mut ctx.rng);
             if mode >= 2 && ctx.rng.bool() {
@@ -215,7 +233,8 @@ impl Prop for C06 {
             if input.is_empty() {
                 input.push(b'x');
             }
-            let c = Case6 { base: Case::new(&cfg, &input, &cuts), extra_el, extra_doc, extra_first: ctx.rng.chance(1, 3) };
+            let c = Case6 { base: Case::new(&cfg, &input, &cuts), extra_el, extra_doc, extra_first: ctx.rng.chance(1, 3) && !mutating_h };
+            // (inserted content carries the index of the inserting handler, so with a rewriting H the observers are registered after H)
             ctx.eval();
             match check(&c) {
                 Ok(o) => {
